@@ -3,6 +3,7 @@
 // and then *verified here* for every index / occupancy).
 #include "bitBoard.cpp"
 #include "verif.h"
+#include "models.h"
 
 static U64 refRay(int sq, U64 occ, int dx, int dy) {
     U64 m = 0; int x = sq & 7, y = sq >> 3;
@@ -33,6 +34,7 @@ void h_rook(void) {
     verif_observe(a);
     U64 r = refRay(sq, occ, 1, 0) | refRay(sq, occ, -1, 0) | refRay(sq, occ, 0, 1) | refRay(sq, occ, 0, -1);
     CHECK(a == r, "rookAttacks == ray walk");
+    CHECK(model_rookAttacks(Square(sq), occ) == a, "ray-fill model == rookAttacks (justifies the substitution used by composite harnesses)");
     END();
 }
 void h_bishop(void) {
@@ -42,6 +44,7 @@ void h_bishop(void) {
     verif_observe(a);
     U64 r = refRay(sq, occ, 1, 1) | refRay(sq, occ, -1, -1) | refRay(sq, occ, 1, -1) | refRay(sq, occ, -1, 1);
     CHECK(a == r, "bishopAttacks == ray walk");
+    CHECK(model_bishopAttacks(Square(sq), occ) == a, "ray-fill model == bishopAttacks (justifies the substitution used by composite harnesses)");
     END();
 }
 
@@ -100,6 +103,7 @@ void h_bits(void) {
     CHECK(f >= 0 && f < 64 && ((m >> f) & 1) && (m & ((1ULL << f) - 1)) == 0, "firstBit = lowest set bit");
     int l = BitUtil::lastBit(m);                          // real
     CHECK(l >= 0 && l < 64 && ((m >> l) & 1) && (l == 63 || (m >> (l + 1)) == 0), "lastBit = highest set bit");
+    CHECK(model_firstBit(m) == f && model_lastBit(m) == l, "ctz/clz models == firstBit/lastBit (justifies the substitution)");
     U64 m2 = m; int e = BitUtil::extractBit(m2);
     CHECK(e == f && m2 == (m & ~(1ULL << f)), "extractBit removes the lowest set bit");
     verif_observe(f); verif_observe(l);
@@ -115,6 +119,7 @@ void h_bitcount(void) {
     int r = BitUtil::bitCount(m);                         // real (SWAR multiplication)
     verif_observe(r);
     CHECK(r == c, "bitCount = number of set bits");
+    CHECK(model_bitCount(m) == r, "popcount model == bitCount (justifies the substitution)");
     END();
 }
 
